@@ -223,6 +223,10 @@ def run_job(job):
                     acc.ob("unknown_b58_version")
                 acc.check("map", {"data": s.hex(), "what": f"base58check version {v:#x} payload {len(body)}B"}, chk_map)
         acc.check("map", {"data": "", "what": "empty"}, chk_map)
+        for pay in (b"", b"\x00", b"\x05", b"\x6f\x00", b"\x00" * 21, b"\x00" * 25):
+            acc.evaluations += 1
+            acc.nontrivial += 1
+            acc.check("map", {"data": B58.check_encode(pay).hex(), "what": f"checksum-valid Base58Check with {len(pay)}-byte payload"}, chk_map)
         for a in range(256):
             acc.evaluations += 1
             acc.check("map", {"data": bytes([a]).hex(), "what": "1 byte"}, chk_map)
